@@ -200,27 +200,34 @@ def C41(ctx):
                                                     consts={"K": 3 if q else 4}, timeout=6000), None),
                   ("weak two RoundTripK (negative control)",
                    ex.submit(tlc, "Pools", "MCPools", cfg="MCPoolsWeakK", workers=2, consts={"K": 4}, timeout=6000), "RoundTripK")]
-        if not q:
-            for sel, k in (("one", 5), ("twoeq", 4), ("multi", 3)):
-                s_jobs.append(("strict " + sel, ex.submit(tlc, "Pools", "MCPools", workers=2,
+        # every pool shape in every tier (one resource with ulp 1 and 2, equal ulps, three resources); deeper in thorough
+        for sel, k in ((("one", 3), ("twoeq", 3), ("multi", 2)) if q else (("one", 5), ("twoeq", 4), ("multi", 3))):
+            if True:
+                s_jobs.append(("strict " + sel, ex.submit(tlc, "Pools", "MCPools", workers=1 if q else 2,
                                                           consts={"K": k, "CfgSel": '"%s"' % sel}, timeout=6000), None))
         # G': model-generated op sequences (inputs only)
-        fg = ex.submit(tlc, "Pools", "GenPools", workers=1, coverage=False, simulate=150 if q else 1500, depth=30,
+        # the boundary product (every pool configuration x pool state x operation x amount class) in EVERY tier;
+        # only the random bulk shrinks in quick
+        fe = ex.submit(tlc, "Pools", "GenPools", workers=2, coverage=False, consts={"K": 2, "Mode": '"edge"'}, timeout=3000)
+        fg = ex.submit(tlc, "Pools", "GenPools", workers=1, coverage=False, simulate=50 if q else 1500, depth=30,
                        seed=ctx.seed, timeout=3000)
         fp = None if q else ex.submit(tlc, "Pools", "GenPools", workers=2, coverage=False,
                                       consts={"K": 2, "Mode": '"pairs"'}, timeout=3000)
         seqs = fg.result().printed("B")
-        if len(seqs) < (150 if q else 1500):
+        if len(seqs) < (50 if q else 1500):
             raise ToolError("GenPools produced only %d sequences" % len(seqs))
+        edge = fe.result().printed("B")
+        if len(edge) < 1000:
+            raise ToolError("GenPools (edge) produced only %d sequences" % len(edge))
         pairs = fp.result().printed("B") if fp else []
         if fp and len(pairs) < 5000:
             raise ToolError("GenPools (pairs) produced only %d sequences" % len(pairs))
         # every 5th pair sequence in thorough (the full set is 12 745 x 2 operations)
-        cases = WITNESS + seqs + pairs[ctx.seed % 5::5]
+        cases = WITNESS + edge + seqs + pairs[ctx.seed % 5::5]
         ctx.sample({"generated_sequence": seqs[0]})
-        f_g = ex.submit(harness_parallel, ctx, "pools", "run", cases, 4 if q else 6, None, "g")
+        f_g = ex.submit(harness_parallel, ctx, "pools", "run", cases, 6, None, "g")
         # T: seeded long histories
-        runs, ln = (6, 100) if q else (90, 200)
+        runs, ln = (4, 60) if q else (90, 200)
         np_t = 2 if q else 6
         f_t = ex.submit(harness_parallel, ctx, "pools", "record", None, np_t,
                         lambda i: ["seed=%d" % (ctx.seed + 7919 * i), "runs=%d" % (runs // np_t), "len=%d" % ln], "t")
@@ -229,7 +236,7 @@ def C41(ctx):
         rc, st = vh(BIN, ["pools", "selftest"])
         if json.loads(st.splitlines()[0])["bad"] != 0:
             raise ToolError("limb conversion self-test failed")
-        f_vg = ex.submit(_pools_validate, ctx, ev_g, "generated sequences", stats, 4 if q else 8)
+        f_vg = ex.submit(_pools_validate, ctx, ev_g, "generated sequences", stats, 6 if q else 8)
         f_vt = ex.submit(_pools_validate, ctx, ev_t, "seeded histories", stats, 2 if q else 6)
         f_st = ex.submit(_pools_selftest, ctx, ev_g)
         for what, f, expect in s_jobs:
@@ -253,6 +260,14 @@ def C41(ctx):
             if e["out"] not in ("commit",):
                 c["cls:" + e["cls"].split(".")[-1]] += 1
         return dict(c)
+    seen = {(e["a"], e.get("out")) for e in ev_g}
+    for a in ("contribute", "redeem", "pdeposit", "pwithdraw"):
+        for o in ("commit", "err"):
+            if (a, o) not in seen and (a, o) != ("pdeposit", "err"):
+                raise ToolError("vacuous run: no %s with outcome %s" % (a, o))
+    kinds_seen = {(e["kind"], tuple(e["div"])) for e in ev_g if e["a"] == "reset"}
+    if len(kinds_seen) < 10:
+        raise ToolError("vacuous run: only %d pool configurations exercised" % len(kinds_seen))
     committed = [e for e in ev_g + ev_t if e.get("out") == "commit"]
     ctx.sample({"recorded_step": _pool_event_brief(next(e for e in ev_g if e["a"] == "redeem" and e["out"] == "commit"))})
     ctx.sample({"recorded_step": _pool_event_brief(next(e for e in ev_t if e["a"] == "contribute" and e["out"] == "commit" and len(e["res"]) > 1))})
@@ -270,12 +285,14 @@ def C41(ctx):
             "rule": "S: MCPools (TLC integers, 2 users, amounts 0..4, ulps 1 and 2): all operation sequences and EVERY admissible "
                     "accepted/minted/paid amount; invariants NonNeg, UnitsAreHeld, Solvent, RoundTrip1, RoundTripK, closed forms = their "
                     "quantified meaning, RedeemProRata; plus the run with the mint bound the v1_1 code guarantees (RoundTrip1 holds, "
-                    "RoundTripK must fail: negative control). G': %d TLC-generated operation sequences of 12 operations "
-                    "(amount classes x pool kinds one/two/multi x divisibilities 0/2/18)%s and the fixed witness scenario executed as "
+                    "RoundTripK must fail: negative control). G': the exhaustive boundary product (%d sequences: 10 pool "
+                    "configurations x pool state normal/fresh/fully redeemed/ownerless reserves/one reserve emptied x every operation "
+                    "with every amount class incl. zero, 1 ulp, = reserve, 10^6 x reserve, mint limit, holding + 1 atto) in every tier, "
+                    "%d seeded TLC-generated sequences of 12 operations%s and the fixed witness scenario executed as "
                     "transactions on real pools; T: %d seeded histories of %d operations incl. protected deposits/withdrawals; every "
                     "step's reserves (vault substates), pool-unit supply and user balances validated by TracePools.tla with big "
                     "integers. distinct = distinct committed steps (operation, amounts, resulting reserves and supply)"
-                    % (len(seqs), " + %d exhaustive 2-operation sequences" % len(pairs[ctx.seed % 5::5]) if pairs else "", runs // np_t * np_t, ln)}
+                    % (len(edge), len(seqs), " + %d exhaustive 2-operation sequences" % len(pairs[ctx.seed % 5::5]) if pairs else "", runs // np_t * np_t, ln)}
 
 
 # ---------------------------------------------------------------------------------------------
@@ -388,17 +405,20 @@ def C42(ctx):
     q = ctx.quick
     core.build_harness(BIN)
     stats = collections.Counter()
-    nseq = 60 if q else 700
+    nseq = 25 if q else 700
     with ThreadPoolExecutor(max_workers=8) as ex:
         s_jobs = [("3 validators K=3", ex.submit(tlc, "Validator", "MCValidator", workers=3 if q else 4,
                                                  consts={"K": 3, "Emission": 1 if q else 2}, timeout=6000), None),
                   ("exact-stake ordering (negative control, DESIGN L7)",
                    ex.submit(tlc, "Validator", "MCValidator", cfg="MCValidatorExact", workers=1, timeout=3000), "ExactTopK")]
+        # selection with a scan shorter than the candidate list, in every tier
+        s_jobs.append(("short scan", ex.submit(tlc, "Validator", "MCValidator", cfg="MCValidatorScan", workers=1, timeout=3000), "-"))
         if not q:
             s_jobs.append(("genesis b", ex.submit(tlc, "Validator", "MCValidator", workers=3,
                                                   consts={"K": 3, "Emission": 1, "GenesisSel": '"b"', "MaxV": 1, "Scan": 2}, timeout=6000), None))
+        fe = ex.submit(tlc, "Validator", "GenValidator", workers=2, coverage=False, consts={"Mode": '"edge"'}, timeout=3000)
         fg = ex.submit(tlc, "Validator", "GenValidator", workers=1, coverage=False, simulate=nseq, depth=60, seed=ctx.seed, timeout=3000)
-        runs, ln = (4, 60) if q else (60, 150)
+        runs, ln = (2, 60) if q else (60, 150)
         np_t = 2 if q else 6
         f_t = ex.submit(harness_parallel, ctx, "validator", "record", None, np_t,
                         lambda i: ["seed=%d" % (ctx.seed + 104729 * i), "runs=%d" % (runs // np_t), "len=%d" % ln], "t")
@@ -406,13 +426,20 @@ def C42(ctx):
         if len(seqs) < nseq:
             raise ToolError("GenValidator produced only %d sequences" % len(seqs))
         ctx.sample({"generated_history": {k: (v if k != "ops" else v[:8]) for k, v in seqs[0].items()}})
-        ev_g = harness_parallel(ctx, "validator", "run", [L7_CASE] + seqs, 4 if q else 6, None, "g")
+        edge = fe.result().printed("B")
+        if len(edge) < 120:
+            raise ToolError("GenValidator (edge) produced only %d histories" % len(edge))
+        ev_g = harness_parallel(ctx, "validator", "run", [L7_CASE] + edge + seqs, 4 if q else 6, None, "g")
         ev_t = f_t.result()
         f_vg = ex.submit(_val_validate, ctx, ev_g, "generated histories", stats, 4 if q else 8)
         f_vt = ex.submit(_val_validate, ctx, ev_t, "seeded histories", stats, 2 if q else 6)
         f_st = ex.submit(_val_selftest, ctx, ev_g + ev_t)
         for what, f, expect in s_jobs:
             r = f.result()
+            if expect == "-":                     # small side model: must pass, action coverage is the main model's job
+                tlc_must_pass(r, "MCValidator " + what, required_actions=["DoEpoch"])
+                ctx.add_tlc(r)
+                continue
             if expect:
                 if r.violated != expect:
                     raise ToolError("negative control failed: %s should violate %s (got %s)" % (what, expect, r.violated))
@@ -426,6 +453,11 @@ def C42(ctx):
     allev = [e for e in ev_g + ev_t if e["a"] not in ("reset", "end")]
     tally = collections.Counter("%s:%s" % (e["a"], e["out"]) for e in allev)
     errs = collections.Counter(e["cls"].split(".")[-1] for e in allev if e["out"] != "commit")
+    seenv = {(e["a"], e["out"]) for e in allev}
+    for pair in (("stake", "commit"), ("unstake", "commit"), ("unstake", "err"), ("claim", "commit"), ("claim", "err"), ("register", "commit"),
+                 ("unregister", "commit"), ("update_fee", "commit"), ("update_fee", "err"), ("round", "commit"), ("epoch", "commit")):
+        if pair not in seenv:
+            raise ToolError("vacuous run: no %s with outcome %s" % pair)
     epochs = [e for e in allev if e["a"] == "epoch" and e["out"] == "commit"]
     if not epochs or not any(e["em"] for e in epochs) or not any(e["rw"] for e in epochs):
         raise ToolError("no epoch change with emissions and rewards was exercised")
@@ -455,13 +487,17 @@ def C42(ctx):
                     "code's selection (bucket-ordered index with arbitrary order inside a bucket, scan, sort by exact stake, take max) for "
                     "every tie order; invariants NonNeg, UnitsAreHeld, ClaimsBacked, NoGain (= its quantified meaning), action properties "
                     "NoValueCreated, EmissionBound, PriceMonotone, ActiveSetChosenOK; negative control: ordering by exact stake fails when "
-                    "the scan is shorter than the candidate list. G': %d TLC-generated histories of 25 transactions (genesis stake sets "
+                    "the scan is shorter than the candidate list. G': the exhaustive boundary product in every tier (%d histories: every "
+                    "genesis stake set x max_validators 1..3 with bucket-crossing stake / (un)registration / fee 0, 1, invalid; every XRD "
+                    "class incl. 0, 1 atto, 100 000, = stake, whole balance x validator in / out of the set x unit price 1 / skewed as "
+                    "stake -> unstake(minted) -> claim; every unit class of unstake; claims before / at / after the claim epoch; "
+                    "reliability above / at / below the minimum x emission 1 atto / 0.333.. / 100) + %d seeded TLC-generated histories of 25 transactions (genesis stake sets "
                     "around the 100k bucket boundaries x emission x min reliability x max_validators 1..3 x unbonding 1..2) and T: %d "
                     "seeded histories of %d transactions on a LedgerSimulator with custom genesis; after every transaction stake vault, "
                     "stake-unit supply, pending vault, owner vault, claim NFT data, user balances, rewards vault, XRD appearing/burnt, "
                     "emission/reward events and EpochChangeEvent.validator_set validated by TraceValidator.tla with big integers. "
                     "distinct = distinct committed transactions (operation, arguments, resulting validator state, chosen set)"
-                    % (len(seqs), runs // np_t * np_t, ln)}
+                    % (len(edge), len(seqs), runs // np_t * np_t, ln)}
 
 
 PROPS = {
